@@ -14,12 +14,12 @@ const (
 
 func init() {
 	register(&Property{
-		ID:        "C05",
-		Title:     "Gateway endpoint needs confirmed credentials of an enabled scheme",
-		DesignRef: "DESIGN.md §3 C05",
-		Technique: "who-may-reference inventory of the bound gateway handler in main (each reference classified by its wrapper chain, route matcher and the mechanism switch guarding it, via edge-cut reachability) + guarded reachability and SSA value origin inside the Basic/NTLM middleware and the PAM service method",
-		LevelText: "Static: every reference to gw.HandleGatewayProtocol in main is either wrapped by the NTLM, Basic or SPNEGO middleware on a route that requires an Authorization header of that scheme inside the block guarded by that mechanism's switch, or is the bare registration, reachable only with OpenID enabled and Kerberos, Basic and NTLM all disabled. Inside the middleware, the tunnel handler is called only over authenticated == true, where that value is the backend's Authenticated field on the error-free edge (NTLM: and no challenge outstanding), the session key sent to the NTLM backend is the connection's remote address, and the user name stored is the one submitted to / returned by the backend. The PAM service method reports Authenticated only after Start, Authenticate and AcctMgmt all succeeded. The no-Authorization matcher route is registered unconditionally and each mechanism block registers its challenge; the refusing branches answer 401 with WWW-Authenticate.",
-		LevelNote: "Trusted: gorilla/mux route matching (HeadersRegexp is unanchored: a header merely containing the scheme word reaches the middleware, which is the gate checked), the SPNEGO library, gRPC transport to the local auth service, PAM. Not decided: the 'if' direction (correct credentials always get through), ordering of NTLM legs across connections beyond the session key.",
+		ID:          "C05",
+		Title:       "Gateway endpoint needs confirmed credentials of an enabled scheme",
+		DesignRef:   "DESIGN.md §3 C05",
+		Technique:   "who-may-reference inventory of the bound gateway handler in main (each reference classified by its wrapper chain, route matcher and the mechanism switch guarding it, via edge-cut reachability) + guarded reachability and SSA value origin inside the Basic/NTLM middleware and the PAM service method",
+		LevelText:   "Static: every reference to gw.HandleGatewayProtocol in main is either wrapped by the NTLM, Basic or SPNEGO middleware on a route that requires an Authorization header of that scheme inside the block guarded by that mechanism's switch, or is the bare registration, reachable only with OpenID enabled and Kerberos, Basic and NTLM all disabled. Inside the middleware, the tunnel handler is called only over authenticated == true, where that value is the backend's Authenticated field on the error-free edge (NTLM: and no challenge outstanding), the session key sent to the NTLM backend is the connection's remote address, and the user name stored is the one submitted to / returned by the backend. The PAM service method reports Authenticated only after Start, Authenticate and AcctMgmt all succeeded. The no-Authorization matcher route is registered unconditionally and each mechanism block registers its challenge; the refusing branches answer 401 with WWW-Authenticate.",
+		LevelNote:   "Trusted: gorilla/mux route matching (HeadersRegexp is unanchored: a header merely containing the scheme word reaches the middleware, which is the gate checked), the SPNEGO library, gRPC transport to the local auth service, PAM. Not decided: the 'if' direction (correct credentials always get through), ordering of NTLM legs across connections beyond the session key.",
 		Explanation: "C05/handler-refs enumerates the MakeClosure sites of HandleGatewayProtocol$bound in main, follows each through conversions and wrapper calls to the route it is registered on, reads the route's HeadersRegexp arguments and checks by edge cutting which mechanism switches must hold on every path to the registration. C05/basic-gate, C05/ntlm-gate and C05/pam-gate check the accept paths. C05/challenge checks the 401 side. C05/spnego checks the transposition.",
 		Assumptions: []string{"the local authentication service is the one in cmd/auth (its NTLM part is C14)"},
 		Rules: []RuleDef{
@@ -40,9 +40,36 @@ func mainEnabled(method string) func(ssa.Value) bool {
 		if !ok || calleeName(call) != "(*"+cfgPkgPath+".ServerConfig)."+method {
 			return false
 		}
-		p, ok := confAddrPath(recvOf(call), "conf")
-		return ok && p == "Server"
+		isSrv := func(v ssa.Value) bool { p, ok := confAddrPath(v, "conf"); return ok && p == "Server" }
+		recv := rv(recvOf(call))
+		if isSrv(recv) {
+			return true
+		}
+		// a helper of main that is handed &conf.Server
+		if _, isParam := recv.(*ssa.Parameter); isParam && theCtx != nil {
+			return theCtx.allUp(recv, isSrv)
+		}
+		return false
 	}
+}
+
+// mainScope: main and the named helpers in its package that are only ever called, statically,
+// from main (route-registration helpers).
+func (c *Ctx) mainScope() []*ssa.Function {
+	mainFn := c.Fn("cmd/rdpgw", "main")
+	out := []*ssa.Function{mainFn}
+	for _, f := range c.allFirstPartyFuncs() {
+		if f == mainFn || f.Parent() != nil || f.Pkg != mainFn.Pkg || f.Synthetic != "" {
+			continue
+		}
+		if sites, ok := c.staticCallers(f); !ok || len(sites) == 0 {
+			continue
+		}
+		if c.onlyCalledFrom(f, mainFn, 0) {
+			out = append(out, f)
+		}
+	}
+	return out
 }
 
 type handlerRef struct {
@@ -96,7 +123,7 @@ func followToRoute(v ssa.Value) (wrappers []string, reg *ssa.Call, why string) {
 	return wrappers, nil, "wrapper chain too deep"
 }
 
-func routeHeaders(reg *ssa.Call) []string {
+func routeHeaders(reg *ssa.Call) []ssa.Value {
 	r := recvOf(reg)
 	for i := 0; i < 6 && r != nil; i++ {
 		call, ok := strip(r).(*ssa.Call)
@@ -108,12 +135,7 @@ func routeHeaders(reg *ssa.Call) []string {
 			if !ok {
 				return nil
 			}
-			var out []string
-			for _, e := range elems {
-				s, _ := constString(e)
-				out = append(out, s)
-			}
-			return out
+			return elems
 		}
 		r = recvOf(call)
 	}
@@ -134,84 +156,110 @@ func c05HandlerRefs(c *Ctx) {
 		"kerberos": {"kerberos", "KerberosEnabled", []string{"Negotiate"}, []string{webPkgPath + ".TransposeSPNEGOContext", spnegoPkg + ".SPNEGOKRB5Authenticate"}},
 	}
 	n := 0
-	eachInstr(mainFn, func(in ssa.Instruction) {
-		mc, ok := in.(*ssa.MakeClosure)
-		if !ok {
-			return
-		}
-		f := mc.Fn.(*ssa.Function)
-		if f.Synthetic == "" || !strings.HasPrefix(f.Name(), "HandleGatewayProtocol$bound") {
-			return
-		}
-		n++
-		key := fmt.Sprintf("main gateway-ref#%d", n)
-		wrappers, reg, why := followToRoute(mc)
-		if reg == nil {
-			c.Bad(rule, key, mc.Pos(), "cannot follow this reference to the gateway handler to a route registration: %s", why)
-			return
-		}
-		hdr := routeHeaders(reg)
-		if len(wrappers) == 0 {
-			// bare registration: OpenID alone
-			var bad []string
-			for _, g := range []struct {
-				n string
-				g Guard
-			}{
-				{"OpenIDEnabled()", GTrue(mainEnabled("OpenIDEnabled"))},
-				{"!KerberosEnabled()", GFalse(mainEnabled("KerberosEnabled"))},
-				{"!BasicAuthEnabled()", GFalse(mainEnabled("BasicAuthEnabled"))},
-				{"!NtlmEnabled()", GFalse(mainEnabled("NtlmEnabled"))},
-			} {
-				if ok, _ := mustPass(mainFn, reg, g.g); !ok {
-					bad = append(bad, g.n)
-				}
+	scope := c.mainScope()
+	inScope := map[*ssa.Function]bool{}
+	for _, f := range scope {
+		inScope[f] = true
+	}
+	for _, fn := range scope {
+		fn := fn
+		eachInstr(fn, func(in ssa.Instruction) {
+			mc, ok := in.(*ssa.MakeClosure)
+			if !ok {
+				return
 			}
-			if len(bad) == 0 {
-				c.OK(rule, key+" bare", reg.Pos(), "unauthenticated route only with OpenID enabled and Kerberos, Basic, NTLM all disabled")
-			} else {
-				c.Bad(rule, key+" bare", reg.Pos(), "the gateway handler is registered without an authentication wrapper on a path that does not require %s: requests reach the tunnel handler without confirmed credentials", strings.Join(bad, ", "))
+			f := mc.Fn.(*ssa.Function)
+			if f.Synthetic == "" || !strings.HasPrefix(f.Name(), "HandleGatewayProtocol$bound") {
+				return
 			}
-			return
-		}
-		var m *mech
-		for k := range mechs {
-			mm := mechs[k]
-			if len(wrappers) == len(mm.wrappers) {
-				same := true
-				for i := range wrappers {
-					if wrappers[i] != mm.wrappers[i] {
-						same = false
+			n++
+			key := fmt.Sprintf("main gateway-ref#%d", n)
+			wrappers, reg, why := followToRoute(mc)
+			if reg == nil {
+				c.Bad(rule, key, mc.Pos(), "cannot follow this reference to the gateway handler to a route registration: %s", why)
+				return
+			}
+			hdr := routeHeaders(reg)
+			if len(wrappers) == 0 {
+				// bare registration: OpenID alone
+				var bad []string
+				for _, g := range []struct {
+					n string
+					g Guard
+				}{
+					{"OpenIDEnabled()", GTrue(mainEnabled("OpenIDEnabled"))},
+					{"!KerberosEnabled()", GFalse(mainEnabled("KerberosEnabled"))},
+					{"!BasicAuthEnabled()", GFalse(mainEnabled("BasicAuthEnabled"))},
+					{"!NtlmEnabled()", GFalse(mainEnabled("NtlmEnabled"))},
+				} {
+					if ok, _ := c.mustPassUp(fn, reg, g.g, 0); !ok {
+						bad = append(bad, g.n)
 					}
 				}
-				if same {
-					m = &mm
+				if len(bad) == 0 {
+					c.OK(rule, key+" bare", reg.Pos(), "unauthenticated route only with OpenID enabled and Kerberos, Basic, NTLM all disabled")
+				} else {
+					c.Bad(rule, key+" bare", reg.Pos(), "the gateway handler is registered without an authentication wrapper on a path that does not require %s: requests reach the tunnel handler without confirmed credentials", strings.Join(bad, ", "))
+				}
+				return
+			}
+			var m *mech
+			for k := range mechs {
+				mm := mechs[k]
+				if len(wrappers) == len(mm.wrappers) {
+					same := true
+					for i := range wrappers {
+						if wrappers[i] != mm.wrappers[i] {
+							same = false
+						}
+					}
+					if same {
+						m = &mm
+					}
 				}
 			}
-		}
-		if m == nil {
-			c.Bad(rule, key, reg.Pos(), "the gateway handler is wrapped by %v, which is not one of the known authentication middleware chains", wrappers)
-			return
-		}
-		schemeOK := len(hdr) == 2 && hdr[0] == "Authorization"
-		if schemeOK {
-			schemeOK = false
-			for _, s := range m.schemes {
-				if hdr[1] == s {
-					schemeOK = true
-				}
+			if m == nil {
+				c.Bad(rule, key, reg.Pos(), "the gateway handler is wrapped by %v, which is not one of the known authentication middleware chains", wrappers)
+				return
 			}
-		}
-		c.Check(schemeOK, rule, key+" "+m.name+" route", reg.Pos(), fmt.Sprintf("route requires Authorization ~ %v", hdr), fmt.Sprintf("the %s-wrapped handler is registered on a route whose header matcher is %v (expected Authorization + one of %v)", m.name, hdr, m.schemes))
-		ok, whyg := mustPass(mainFn, reg, GTrue(mainEnabled(m.enabled)))
-		c.Check(ok, rule, key+" "+m.name+" switch", reg.Pos(), "registered only when "+m.enabled+"()", "the "+m.name+" route is "+whyg+" of "+m.enabled+"(): a disabled mechanism's credentials are accepted")
-	})
+			// the scheme(s) this registration is made for: a constant, or each element of a
+			// constant table the registration loops over (counted as one reference per element)
+			var schemes []string
+			hdrOK := len(hdr) == 2
+			if hdrOK {
+				h0, ok0 := constString(hdr[0])
+				vals, _, ok1 := stringsOf(hdr[1])
+				hdrOK = ok0 && h0 == "Authorization" && ok1
+				schemes = vals
+			}
+			if !hdrOK {
+				c.Bad(rule, key+" "+m.name+" route", reg.Pos(), "the %s-wrapped handler is registered on a route whose header matcher is not Authorization + a constant scheme (expected one of %v)", m.name, m.schemes)
+				schemes = nil
+			}
+			for i, sch := range schemes {
+				k := key
+				if i > 0 {
+					n++
+					k = fmt.Sprintf("main gateway-ref#%d", n)
+				}
+				schemeOK := false
+				for _, s := range m.schemes {
+					if sch == s {
+						schemeOK = true
+					}
+				}
+				c.Check(schemeOK, rule, k+" "+m.name+" route", reg.Pos(), fmt.Sprintf("route requires Authorization ~ %s", sch), fmt.Sprintf("the %s-wrapped handler is registered on a route whose header matcher is [Authorization %s] (expected Authorization + one of %v)", m.name, sch, m.schemes))
+				ok, whyg := c.mustPassUp(fn, reg, GTrue(mainEnabled(m.enabled)), 0)
+				c.Check(ok, rule, k+" "+m.name+" switch", reg.Pos(), "registered only when "+m.enabled+"()", "the "+m.name+" route is "+whyg+" of "+m.enabled+"(): a disabled mechanism's credentials are accepted")
+			}
+		})
+	}
 	if n < 5 {
 		c.Undecided(rule, "main gateway-refs", mainFn.Pos(), "found %d references to the gateway handler (5 confirmed by hand)", n)
 	}
 	// no other function references the handler
 	for _, f := range c.allFirstPartyFuncs() {
-		if f == mainFn {
+		if inScope[f] {
 			continue
 		}
 		eachInstr(f, func(in ssa.Instruction) {
@@ -289,11 +337,8 @@ func c05BasicGate(c *Ctx) {
 		ok, why := mustPass(cl, nx, GTrue(isVal(authCall)))
 		c.Check(ok, rule, fmt.Sprintf("%s next#%d", key, i), nx.Pos(), "the tunnel handler runs only over authenticated == true", "the tunnel handler is "+why+" of the backend's verdict")
 	}
-	for _, ci := range callsIn(cl) {
-		call, ok := ci.(*ssa.Call)
-		if ok && call.Call.IsInvoke() && call.Call.Method.Name() == "SetUserName" {
-			c.Check(strip(call.Call.Args[0]) == resultOf(ba, 0), rule, key+" SetUserName", call.Pos(), "tunnel user = the user the backend confirmed", "the tunnel's user name is not the one submitted to the backend")
-		}
+	for _, sc := range c.invokesInScope(cl, "SetUserName", 0) {
+		c.Check(strip(sc.args[0]) == resultOf(ba, 0), rule, key+" SetUserName", sc.call.Pos(), "tunnel user = the user the backend confirmed", "the tunnel's user name is not the one submitted to the backend")
 	}
 	// authenticate(): non-false only from the backend's answer on the error-free edge
 	fn := c.Fn("cmd/rdpgw/web", "BasicAuthHandler.authenticate")
@@ -362,11 +407,8 @@ func c05NtlmGate(c *Ctx) {
 		ok, why := mustPass(cl, nx, GTrue(isVal(resultOf(authCall, 0))))
 		c.Check(ok, rule, fmt.Sprintf("%s next#%d", key, i), nx.Pos(), "the tunnel handler runs only over authenticated == true", "the tunnel handler is "+why+" of the backend's verdict")
 	}
-	for _, ci := range callsIn(cl) {
-		call, ok := ci.(*ssa.Call)
-		if ok && call.Call.IsInvoke() && call.Call.Method.Name() == "SetUserName" {
-			c.Check(strip(call.Call.Args[0]) == resultOf(authCall, 1), rule, key+" SetUserName", call.Pos(), "tunnel user = the name the backend returned", "the tunnel's user name is not the one the backend confirmed")
-		}
+	for _, sc := range c.invokesInScope(cl, "SetUserName", 0) {
+		c.Check(strip(sc.args[0]) == resultOf(authCall, 1), rule, key+" SetUserName", sc.call.Pos(), "tunnel user = the name the backend returned", "the tunnel's user name is not the one the backend confirmed")
 	}
 	fn := c.Fn("cmd/rdpgw/web", "NTLMAuthHandler.authenticate")
 	fk := shortFn(fn)
@@ -516,28 +558,64 @@ func c05Challenge(c *Ctx) {
 	}
 	// per-mechanism Register calls
 	want := map[string][]string{"NtlmEnabled": {"NTLM", "Negotiate"}, "BasicAuthEnabled": {"Basic"}, "KerberosEnabled": {"Negotiate"}}
+	regName := "(*" + webPkgPath + ".AuthMux).Register"
+	// registers: the instruction certainly registers the challenge for scheme — a Register call with
+	// that constant (or in a loop that runs it for every element of a constant table containing it),
+	// or a call of a helper of main every path through which does so.
+	var registers func(in ssa.Instruction, scheme string, depth int) bool
+	registers = func(in ssa.Instruction, scheme string, depth int) bool {
+		ci, ok := in.(*ssa.Call)
+		if !ok {
+			return false
+		}
+		if calleeName(ci) == regName {
+			vals, table, ok := stringsOf(arg(ci, 0))
+			if !ok {
+				return false
+			}
+			if table {
+				_, hdr, _ := rangeElem(arg(ci, 0))
+				if !runsForEveryElement(ci, hdr) {
+					return false
+				}
+			}
+			for _, s := range vals {
+				if s == scheme || strings.HasPrefix(s, scheme+" ") {
+					return true
+				}
+			}
+			return false
+		}
+		callee := ci.Call.StaticCallee()
+		if callee == nil || !IsFirstParty(callee) || callee.Blocks == nil || depth > 1 {
+			return false
+		}
+		marker := func(x ssa.Instruction) bool { return registers(x, scheme, depth+1) }
+		for _, r := range returnsOf(callee) {
+			if reachFromWithoutMarkerAvoiding(callee.Blocks[0], r, marker, nil) {
+				return false
+			}
+		}
+		return true
+	}
 	for _, m := range sortedKeys(want) {
 		for _, scheme := range want[m] {
 			found := false
-			for _, ci := range callsTo(mainFn, "(*"+webPkgPath+".AuthMux).Register") {
-				s, ok := constString(arg(ci, 0))
-				if !ok || !(s == scheme || strings.HasPrefix(s, scheme+" ")) {
-					continue
+			eachInstr(mainFn, func(in ssa.Instruction) {
+				if found || !registers(in, scheme, 0) {
+					return
 				}
-				if okg, _ := mustPass(mainFn, ci.(ssa.Instruction), GTrue(mainEnabled(m))); !okg {
-					continue
+				if okg, _ := mustPass(mainFn, in, GTrue(mainEnabled(m))); !okg {
+					return
 				}
 				// whenever the mechanism is on, the challenge is registered before serving
-				all := true
 				for _, s := range serves {
-					if reachWithoutMarkerAvoiding(mainFn, s, func(in ssa.Instruction) bool { return in == ci.(ssa.Instruction) }, GFalse(mainEnabled(m))) {
-						all = false
+					if reachWithoutMarkerAvoiding(mainFn, s, func(x ssa.Instruction) bool { return x == in }, GFalse(mainEnabled(m))) {
+						return
 					}
 				}
-				if all {
-					found = true
-				}
-			}
+				found = true
+			})
 			c.Check(found, rule, "main challenge "+m+" "+scheme, mainFn.Pos(), "with "+m+"() the "+scheme+" challenge is registered on every path to serving", "with "+m+"() true the server can start without a "+scheme+" challenge registered (or it is registered for a disabled mechanism only)")
 		}
 	}
